@@ -274,6 +274,8 @@ int main(int argc, char** argv) {
             if (calls + c > maxcalls) continue;
             if (!thorough && cur.size() >= 2 && calls + c > 3) continue;  // quick: 3 threads only with one call each
             if (thorough && cur.size() >= 2 && calls + c > (cur.size() >= 3 ? 4 : 3)) continue;  // thorough: 3 threads <= 3 calls, 4 threads one call each
+            // four threads: base alphabet only (the extras are covered with 2 and 3 threads)
+            if (cur.size() == 3 && (i >= (int)A2.size() || cur[0] >= (int)A2.size() || cur[1] >= (int)A2.size() || cur[2] >= (int)A2.size())) continue;
             cur.push_back(i);
             gen(cur, i, calls + c);
             cur.pop_back();
@@ -302,7 +304,8 @@ int main(int argc, char** argv) {
             int calls = 0;
             for (auto& s : ss) calls += (int)s.size();
             sc.bound_quick = 1;
-            sc.bound_thorough = (ss.size() <= 3) ? 2 : 1;
+            // three threads with a two-call script: bound 1 (the explicit-state scenario below covers them without a bound)
+            sc.bound_thorough = (ss.size() == 2 || (ss.size() == 3 && calls == 3)) ? 2 : 1;
             sc.horizon = 5000;
             sc.whole = true;
             sc.spurious_pass = thorough && ss.size() == 2;
